@@ -25,6 +25,8 @@ func init() {
 }
 
 type c14iter struct {
+	consume  *Term // consuming form: the loop variable holding the not yet visited part of the slice
+	consIdx  *Term // consuming form: index of the visited element within consume (0, or len(consume)-1)
 	li       *LoopInfo
 	kind     string // slice | map
 	over     *Term
@@ -36,6 +38,9 @@ type c14iter struct {
 }
 
 func (it *c14iter) isElem(t *Term) bool {
+	if it.consume != nil {
+		return isElemOf(t, it.consume, it.consIdx)
+	}
 	if it.kind == "slice" {
 		return isElemOf(t, it.over, it.idx)
 	}
@@ -65,7 +70,7 @@ func c14IterOf(li *LoopInfo) *c14iter {
 	}
 	ct := counted(li)
 	if ct == nil {
-		return nil
+		return c14Consuming(li)
 	}
 	lv := li.LV[ct.Phi]
 	// the element index actually used: an access X[E] with E = lv + k
@@ -429,8 +434,97 @@ func runC14(c *Ctx) {
 		isFunc := strings.HasSuffix(name, "Func")
 		ok, why := true, ""
 		loops := findLoops(ps)
-		if len(loops) != 1 || len(loops[0].Phis) != 1 {
-			ok, why = false, "expected one loop carrying the shrinking slice (an index scan must be shown equivalent, which these rules cannot do)"
+		if len(loops) == 1 && len(loops[0].Phis) == 1 && isIntegerType(loops[0].Phis[0].Type()) {
+			// the index form: scan a boundary index over the argument, re-slice once at the end
+			li := loops[0]
+			phi := li.Phis[0]
+			lv := li.LV[phi]
+			arg := paramOf(fi, 0)
+			lenArg := ToPoly(&Term{Op: "builtin", Sym: "len", Args: []*Term{arg}})
+			in := li.Init[phi]
+			if left && (in == nil || !in.IsConst("0")) || !left && (in == nil || !ToPoly(in).Equal(lenArg)) {
+				ok, why = false, "the boundary index does not start at the "+map[bool]string{true: "front (0)", false: "back (len)"}[left]
+			}
+			edgeIdx := ToPoly(lv)
+			if !left {
+				edgeIdx = ToPoly(lv).Add(polyConst(1), -1)
+			}
+			for _, p := range ps {
+				inB, outB := false, false
+				var pred *Term
+				predPol := false
+				for _, cd := range p.Conds {
+					if pl, kind, isInt := cd.Rel().IntNorm(); isInt && kind == ">" {
+						if left {
+							if pl.Equal(lenArg.Add(ToPoly(lv), -1)) {
+								inB = true
+							}
+							if pl.Equal(ToPoly(lv).Add(lenArg, -1).Add(polyConst(1), 1)) {
+								outB = true
+							}
+						} else {
+							if pl.Equal(ToPoly(lv)) {
+								inB = true
+							}
+							if pl.Equal(polyConst(1).Add(ToPoly(lv), -1)) {
+								outB = true
+							}
+						}
+					}
+					t, pol := stripNot(cd.T, cd.Pol)
+					if t.Op == "call" {
+						pred, predPol = t, pol
+					}
+				}
+				predOnEdge := func() bool {
+					if pred == nil {
+						return false
+					}
+					var a *Term
+					if isFunc {
+						if pred.Sym == "dyn" && len(pred.Args) == 2 && isParam(pred.Args[0], 1) {
+							a = pred.Args[1]
+						}
+					} else if pred.Sym == "slices.Contains" && len(pred.Args) == 2 && isParam(pred.Args[0], 1) {
+						a = pred.Args[1]
+					}
+					if a == nil || a.Op != "load" || a.Args[0].Op != "iaddr" || a.Args[0].Args[0].Key() != arg.Key() {
+						return false
+					}
+					return ToPoly(a.Args[0].Args[1]).Equal(edgeIdx)
+				}
+				switch p.End {
+				case EndLoopBack:
+					if !inB || !predPol || !predOnEdge() {
+						ok, why = false, "moves the boundary without having tested 'inside the slice and the edge element is unwanted'"
+					}
+					step := int64(1)
+					if !left {
+						step = -1
+					}
+					if nx := p.Next[phi]; nx == nil || !ToPoly(nx).Equal(ToPoly(lv).Add(polyConst(step), 1)) {
+						ok, why = false, "the boundary does not move by exactly one element"
+					}
+				case EndReturn:
+					good := len(p.Rets) == 1 && p.Rets[0].Op == "slice" && p.Rets[0].Args[0].Key() == arg.Key()
+					if good {
+						r := p.Rets[0]
+						if left {
+							good = ToPoly(r.Args[1]).Equal(ToPoly(lv)) && r.Args[2].Op == "none"
+						} else {
+							good = (r.Args[1].Op == "none" || r.Args[1].IsConst("0")) && r.Args[2].Op != "none" && ToPoly(r.Args[2]).Equal(ToPoly(lv))
+						}
+					}
+					if !good {
+						ok, why = false, "does not return the argument re-sliced at the boundary"
+					}
+					if !(outB || (inB && pred != nil && !predPol && predOnEdge())) {
+						ok, why = false, "stops although the edge element may still be unwanted: "+p.CondString()
+					}
+				}
+			}
+		} else if len(loops) != 1 || len(loops[0].Phis) != 1 {
+			ok, why = false, "expected one loop carrying the shrinking slice or a boundary index"
 		} else {
 			li := loops[0]
 			phi := li.Phis[0]
@@ -1059,13 +1153,19 @@ func runC14(c *Ctx) {
 						ok, why = false, "the new map value is not derived from the old one"
 						continue
 					}
-					old := &Term{Op: "extract", Args: []*Term{lk}, N: 0}
+					// the old value: m[key] read in the comma-ok form (first component) or plainly
+					olds := []*Term{{Op: "extract", Args: []*Term{lk}, N: 0}, lk}
 					if name == "slices.GroupBy" {
-						v, single := appendedElem(p, old, mu.Val)
-						if !single || !it.isElem(v) {
+						good := false
+						for _, old := range olds {
+							if v, single := appendedElem(p, old, mu.Val); single && it.isElem(v) {
+								good = true
+							}
+						}
+						if !good {
 							ok, why = false, "the element is not appended to its group"
 						}
-					} else if !ToPoly(mu.Val).Equal(ToPoly(old).Add(polyConst(1), 1)) {
+					} else if !ToPoly(mu.Val).Equal(ToPoly(olds[0]).Add(polyConst(1), 1)) && !ToPoly(mu.Val).Equal(ToPoly(olds[1]).Add(polyConst(1), 1)) {
 						ok, why = false, "the count is not incremented by one"
 					}
 					hit := &Term{Op: "extract", Args: []*Term{lk}, N: 1}
@@ -1105,7 +1205,30 @@ func runC14(c *Ctx) {
 								st = e
 							}
 						}
-						if st == nil || !out.isKey(st.Addr.Args[1]) || st.Val.Op != "struct" || len(st.Val.Args) != 2 || !out.isElem(st.Val.Args[0]) ||
+						if st == nil {
+							// the appending form: result = append(result, {key, m[key]}) from a fresh, empty result
+							good := false
+							for _, phi := range out.li.Phis {
+								if phi == out.idxPhi {
+									continue
+								}
+								lv := out.li.LV[phi]
+								v, single := appendedElem(p, lv, p.Next[phi])
+								if single && v != nil && v.Op == "struct" && len(v.Args) == 2 && out.isElem(v.Args[0]) &&
+									v.Args[1].Op == "lookup" && theMap != nil && v.Args[1].Args[0].Key() == theMap.Key() && out.isElem(v.Args[1].Args[1]) &&
+									isFreshAccInit(out.li.Init[phi]) {
+									in := out.li.Init[phi]
+									if in.Op != "mkslice" || in.Args[0].IsConst("0") {
+										good = true
+									}
+								}
+							}
+							if !good {
+								ok, why = false, "output is neither output[i] = {orderedKeys[i], m[orderedKeys[i]]} nor an append of that pair to a fresh, empty result"
+							}
+							continue
+						}
+						if !out.isKey(st.Addr.Args[1]) || st.Val.Op != "struct" || len(st.Val.Args) != 2 || !out.isElem(st.Val.Args[0]) ||
 							!(st.Val.Args[1].Op == "lookup" && theMap != nil && st.Val.Args[1].Args[0].Key() == theMap.Key() && out.isElem(st.Val.Args[1].Args[1])) ||
 							!isLenOf(st.Addr.Args[0].Args[0], keysLV) {
 							ok, why = false, "output[i] is not {orderedKeys[i], m[orderedKeys[i]]} in a result of len(orderedKeys)"
@@ -1274,4 +1397,99 @@ func coreOf(tp *types.TypeParam) types.Type {
 		}
 	}
 	return core
+}
+
+// c14Consuming recognises a loop that consumes a slice from one end:
+//
+//	for rest := s; len(rest) > 0; rest = rest[1:]            { ... rest[0] ... }             (forward)
+//	for rest := s; len(rest) > 0; rest = rest[:len(rest)-1]  { ... rest[len(rest)-1] ... }   (backward)
+//
+// It visits every element of s exactly once, front to back resp. back to front.
+func c14Consuming(li *LoopInfo) *c14iter {
+	for _, phi := range li.Phis {
+		if !hasSliceCore(phi.Type()) {
+			continue
+		}
+		lv := li.LV[phi]
+		in := li.Init[phi]
+		if in == nil || len(li.Back) == 0 {
+			continue
+		}
+		lenLV := &Term{Op: "builtin", Sym: "len", Args: []*Term{lv}, Typ: types.Typ[types.Int]}
+		fwd, bwd := true, true
+		for _, p := range li.Back {
+			nx := p.Next[phi]
+			if nx == nil || nx.Op != "slice" || nx.Args[0].Key() != lv.Key() {
+				fwd, bwd = false, false
+				break
+			}
+			if !(nx.Args[1].IsConst("1") && nx.Args[2].Op == "none") {
+				fwd = false
+			}
+			if !((nx.Args[1].Op == "none" || nx.Args[1].IsConst("0")) && nx.Args[2].Op != "none" && ToPoly(nx.Args[2]).Equal(ToPoly(lenLV).Add(polyConst(1), -1))) {
+				bwd = false
+			}
+			nonEmpty := false
+			for _, cd := range p.Conds {
+				if cd.NEv < p.LoopAt[li.Hdr] {
+					continue
+				}
+				if pl, kind, isInt := cd.Rel().IntNorm(); isInt && ((kind == ">" && pl.Equal(ToPoly(lenLV))) || (kind == "!=" && pl.Equal(canonSign(ToPoly(lenLV))))) {
+					nonEmpty = true
+				}
+			}
+			if !nonEmpty {
+				fwd, bwd = false, false
+			}
+		}
+		// the loop is left only when the rest is empty (other exits are the rule's business)
+		if !fwd && !bwd {
+			continue
+		}
+		it := &c14iter{li: li, kind: "slice", over: in, consume: lv, idxPhi: phi}
+		if fwd {
+			it.consIdx = intConst(0)
+			it.full = true
+		} else {
+			it.consIdx = &Term{Op: "bin", Sym: "-", Args: []*Term{lenLV, intConst(1)}, Typ: types.Typ[types.Int]}
+			it.fullRev = true
+		}
+		it.idx = it.consIdx
+		return it
+	}
+	return nil
+}
+
+// hasSliceCore: a slice type, or a type parameter whose constraint is ~[]E.
+func hasSliceCore(t types.Type) bool {
+	if _, ok := t.Underlying().(*types.Slice); ok {
+		return true
+	}
+	tp, ok := t.(*types.TypeParam)
+	if !ok {
+		return false
+	}
+	iface, ok := tp.Constraint().Underlying().(*types.Interface)
+	if !ok {
+		return false
+	}
+	for i := 0; i < iface.NumEmbeddeds(); i++ {
+		switch e := iface.EmbeddedType(i).(type) {
+		case *types.Union:
+			all := e.Len() > 0
+			for k := 0; k < e.Len(); k++ {
+				if _, isS := e.Term(k).Type().Underlying().(*types.Slice); !isS {
+					all = false
+				}
+			}
+			if all {
+				return true
+			}
+		default:
+			if _, isS := e.Underlying().(*types.Slice); isS {
+				return true
+			}
+		}
+	}
+	return false
 }
